@@ -426,11 +426,26 @@ LongPaths(o) ==
       [] o.k \in {"arr", "tup"} ->
             (IF o.k = "arr" /\ Len(o.a) >= 2 /\ ~OEq(o.a[1], o.a[Len(o.a)]) THEN {<<>>} ELSE {})
             \cup UNION { { <<ToString(i)>> \o q : q \in LongPaths(o.a[i]) } : i \in DOMAIN o.a }
-      [] o.k = "map" -> UNION { { <<key>> \o q : q \in LongPaths(o.f[key]) } : key \in DOMAIN o.f }
+      \* a map with an entry: the harness adds LongPad entries under fresh keys, each a copy of an existing value
+      [] o.k = "map" -> (IF DOMAIN o.f # {} THEN {<<>>} ELSE {})
+                        \cup UNION { { <<key>> \o q : q \in LongPaths(o.f[key]) } : key \in DOMAIN o.f }
       [] OTHER -> {}
 LongPrefix ==
     /\ svVar.vk = "none" /\ svDepth < KL
     /\ \E path \in LongPaths(svObj) : svVar' = [vk |-> "long", name |-> "", path |-> path]
+    /\ UNCHANGED <<svObj, svW>>
+    /\ Same
+
+\* Depth.  A property of the root that holds (directly or as the one element of an array) an instance of the root's own
+\* class: the harness nests the value into itself DeepPad times along that property - recursive structures
+\* (SelectionRange.parent, DocumentSymbol.children) far deeper than Refine goes.  Judged like a plain value.
+SameClass(a, b) == a.k = "inst" /\ b.k = "inst" /\ a.cls = b.cls
+Deepen ==
+    /\ svVar.vk = "none" /\ svDepth < KL /\ svObj.k = "inst"
+    /\ \E n \in DOMAIN svObj.p :
+          /\ \/ SameClass(svObj.p[n], svObj)
+             \/ (svObj.p[n].k = "arr" /\ Len(svObj.p[n].a) = 1 /\ SameClass(svObj.p[n].a[1], svObj))
+          /\ svVar' = [vk |-> "deepen", name |-> n, path |-> <<>>]
     /\ UNCHANGED <<svObj, svW>>
     /\ Same
 
@@ -467,7 +482,7 @@ AddNearMissKey ==
     /\ UNCHANGED svObj
     /\ Same
 
-Vary == LongPrefix \/ NestedDeviation \/ AddNearMissKey \/ AddUnknownBelowUnion \/ DropRequired \/ IntValue \/ BadEnumValue \/ OtherLiteral \/ DropSpecial \/ AddUnknown
+Vary == Deepen \/ LongPrefix \/ NestedDeviation \/ AddNearMissKey \/ AddUnknownBelowUnion \/ DropRequired \/ IntValue \/ BadEnumValue \/ OtherLiteral \/ DropSpecial \/ AddUnknown
 Next == Refine \/ Vary
 Spec == Init /\ [][Next]_vars
 
